@@ -24,7 +24,7 @@ ESHAPES = {"scalar": (), "vec2": (2,), "mat32": (3, 2)}
 DTYPES = ("int64", "float64", "bool")
 # the five construction paths; the three flat ones take different constructor branches
 # (`lengths == lengths[0]` is an array for an ndarray / a list of numpy ints, plain False for a list of python ints)
-CONSTRUCTIONS = ("nested", "arrays", "flat_nd", "flat_pyint", "flat_npint")
+CONSTRUCTIONS = ("nested", "arrays", "flat_nd", "flat_pyint", "flat_npint", "flat_F")
 
 
 # --------------------------------------------------------------------------------------------------
@@ -74,6 +74,10 @@ def build(rows, how, **kw):
         return ra.RaggedArray(flat, lengths=[int(x) for x in lengths], **kw)
     if how == "flat_npint":
         return ra.RaggedArray(flat, lengths=[np.int64(x) for x in lengths], **kw)
+    if how == "flat_F":
+        # the flat buffer in a non-C memory order (an (N, 3) block obtained by transposing a (3, N) table): the same
+        # values at the same indices, other strides
+        return ra.RaggedArray(np.asfortranarray(flat), lengths=np.array(lengths, dtype=int), **kw)
     raise ValueError(how)
 
 
